@@ -163,6 +163,9 @@ class Parser:
         """
         with self.lexer.maintain_filepath(filepath):
             with self.maintain_filepath(filepath):
+                if not s.endswith("\n"):
+                    # The last line may be a comment, which is terminated by a newline.
+                    s += "\n"
                 return self.parser.parse(s)
 
     def parse(self, filepath: str) -> Proto:
